@@ -1,6 +1,8 @@
 """Single source for MANIFEST.json (see tools_gen_manifest.py)."""
 
 ENGINES = [
+    {"name": "E-TAINT", "path": "sa/taint.py", "serves_properties": ["C12"], "kind_free_text": "field-based interprocedural hash-order taint to output effects"},
+    {"name": "E-LIBMODEL", "path": "sa/cfgmodel.py, sa/excelmodel.py", "serves_properties": ["C09", "C12", "C14", "C15", "C16", "C19", "C20"], "kind_free_text": "call-level models of configparser base class, cexprtk, openpyxl used under the repo's real overrides"},
     {"name": "E-MODEL", "path": "sa/model.py", "serves_properties": ["C01-C20"], "kind_free_text": "program model / resolver over /repo's ast (modules, classes, MRO, imports)"},
     {"name": "E-EP", "path": "sa/ep.py", "serves_properties": ["C01", "C02", "C03", "C04", "C05", "C06", "C07", "C10", "C11", "C18", "C19"], "kind_free_text": "exact exp-polynomial / rational normal forms, symbolic differentiation, tolerant equality"},
     {"name": "E-SYM", "path": "sa/interp.py (symeval*.py, values.py, strtree.py, fmt.py)", "serves_properties": ["C01", "C02", "C03", "C04", "C05", "C06", "C07", "C10", "C17", "C19"], "kind_free_text": "abstract evaluator: if-converted (gated) translation of repo functions into normal-form values, output-expression trees and effect logs; loops by recurrences/families"},
@@ -64,6 +66,35 @@ CHECKS.update({
     "C19": {"engine": "E-SYM", "level": "other", "design_ref": "DESIGN.md section 4 C19 and section 11",
             "text": "GULP, ADP and funcfl writers: output-expression tree equality with reference writers; ADP factory slot binding; Excel workbooks evaluated on a recording openpyxl model with symbolic rows (first column = grid, labelled column = that label's function).",
             "note": _N, "technique": "abstract interpretation to output-expression trees / recorded worksheet cells + normal-form equality"},
+})
+
+_L = ("configparser, wrapt, cexprtk, openpyxl, numpy and scipy are not analysed: their documented call-level behaviour is modelled in "
+      "sa/cfgmodel.py, sa/excelmodel.py and the rule modules, and the repository's own overrides/wrappers are evaluated on top of the models")
+
+CHECKS.update({
+    "C09": {"engine": "E-SYM", "level": "other", "design_ref": "DESIGN.md section 4 C09 and section 11",
+            "text": "Structural clauses of the model language only: modifier-to-combinator binding and reduction order, trans shift, parse-tree walker (ranges, nesting), grammar/consumer name agreement, builder argument order, positional parameter binding and mutual registration of custom formulas, signature parsing, documented modifiers/pymath names, key normalisation and delimiters - each by abstract evaluation of the real functions on opaque arguments or by syntax-tree comparison. The semantics of cexprtk expressions and pyparsing matching are not decided.",
+            "note": _N + " " + _L, "technique": "abstract interpretation over opaque operands + grammar/consumer name agreement on the syntax tree"},
+    "C12": {"engine": "E-TAINT", "level": "other", "design_ref": "DESIGN.md section 4 C12 and section 11",
+            "text": "Hash-order taint (unsorted set iteration -> containers -> fields/arguments/returns -> output effects) over the whole package with a must-flag positive example; shared-state rules (global statements, module/class-level containers, factory singletons, mutable defaults and the fields storing them); purity of custom-formula evaluation (unconditional re-binding, no call state; abstract evaluation of interleaved calls); write-once caches; nondeterminism sources.",
+            "note": "trusted: the taint engine's propagation rules (sa/taint.py) and name-based call resolution (class-hierarchy analysis); dict/list order is deterministic, only set order depends on the hash seed. Not decided: bytes written inside openpyxl.",
+            "technique": "field-based interprocedural taint analysis + effect/ownership lints + abstract evaluation of call histories"},
+    "C14": {"engine": "E-SYM", "level": "other", "design_ref": "DESIGN.md section 4 C14 and section 11",
+            "text": "Overrides/removals/additions evaluated on the repository's real _RawConfigParser overrides over a model of configparser's base class: resulting file state equals the hand edit for every spelling of the key and presence scenario, rejections are the documented configuration errors; optionxform proved equal to the dictionary key transform for every key (symbolic string-transformation chains); CLI splitter on every delimiter pattern; option tables; --list-items/--item-value coverage of every section kind.",
+            "note": _N + " " + _L, "technique": "finite-domain abstract evaluation over a library-contract model + symbolic equality of string-transform chains"},
+    "C15": {"engine": "E-SYM", "level": "other", "design_ref": "DESIGN.md section 4 C15 and section 11",
+            "text": "For a file with every section kind, every raw section view and every ConfigParser accessor is evaluated with and without a block of unreferenced variables named like options of each section and must agree; placeholders equal textual substitution; parser construction arguments; deny-list of default-merging parser APIs.",
+            "note": _N + " " + _L, "technique": "differential abstract evaluation over a library-contract model + who-may-call lint"},
+    "C16": {"engine": "E-SYM", "level": "other", "design_ref": "DESIGN.md section 4 C16 and section 11",
+            "text": "Error-discipline conformance: undefined-name pass over all functions, who-may-raise rule on the configuration modules, exhaustive input-partition evaluation of every validating function (keys, numbers, table-form option subsets, spline/trans part counts and r_min positions, configparser error classes, unknown names), denominators versus accepted row counts per target, main()'s conversion, documented-valid subset of accepted values.",
+            "note": _N + " " + _L + " Python can raise from almost anything: this is conformance to the enumerated partitions and rules.",
+            "technique": "symbol-table lint + who-may-raise rule + finite input-partition abstract evaluation + division-site analysis"},
+    "C18": {"engine": "E-SYM", "level": "other", "design_ref": "DESIGN.md section 4 C18 and section 11",
+            "text": "Table form construction arguments (ext=1 only), derivative objects, xy de-interleaving on every parity, TableReader.getValue on every position of x for tables of 1..4 points with symbolic ordinates (comparison-only premise), DatReader on every class of input line, plotToFile and wrappers as output trees.",
+            "note": _N + " scipy's interpolation property itself is an assumption.", "technique": "finite-domain abstract evaluation + output-tree equality"},
+    "C20": {"engine": "E-SYM", "level": "other", "design_ref": "DESIGN.md section 4 C20 and section 11",
+            "text": "Every kind of duplication named in the property evaluated on the real parser overrides over the strict base-class model (whitespace variants, repeated sections), the constructor's reversed-pair and table-form-name checks, registry clashes in every role (table form vs formula vs built-in incl. forms registered last), repeated A->B densities; optionxform == dictionary transform for every key.",
+            "note": _N + " " + _L, "technique": "finite-domain abstract evaluation over a library-contract model + symbolic transform equality"},
 })
 
 _PENDING = "checker not built yet in this session (design in DESIGN.md section 4); not claimed until its check exists"
